@@ -202,7 +202,7 @@ def rule_after_loop(repo: Repo) -> List[Ob]:
         n += 1
         keyl = f"{f.relpath}::{f.qualname}::limit-after-combination"
         early = [cv for cv in convs if any(r.startswith("call:") and r.endswith("transform_to_after_loop") for r in fd.roots(cv.args[0]))]
-        late = [lm for lm in lims if lm.args and any(r.startswith("call:") and r.split(".")[-1] in ("raw_moments_to_cumulants", "raw_moments_to_centrals") for r in fd.roots(lm.args[0]))]
+        late = [lm for lm in lims if lm.args and any(r.startswith("call:") and r[5:].split(".")[-1] in ("raw_moments_to_cumulants", "raw_moments_to_centrals") for r in fd.roots(lm.args[0]))]
         if early:
             obs.append(Ob("E-after-loop", keyl, f.relpath, early[0].lineno, f.qualname, False,
                           f"`{src(early[0])[:60]}` combines raw moments whose limit n->oo was already taken: for diverging moments the combination is oo - oo (nan) instead of the limit of the combined quantity"))
@@ -210,6 +210,42 @@ def rule_after_loop(repo: Repo) -> List[Ob]:
             obs.append(Ob("E-after-loop", keyl, f.relpath, late[0].lineno, f.qualname, True, "the limit is taken of the combined quantity (cumulant / central moment), not of the raw moments"))
         else:
             obs.append(inconclusive("E-after-loop", keyl, f.relpath, lims[0].lineno, f.qualname, "order of limit and combination not recognised"))
+    # the limit helper is handed a kind of value it dispatches on: it maps over the containers it tests for with isinstance and treats
+    # everything else as ONE expression -- a list built by the caller must be among the tested containers
+    tl = repo.function("cli/common.py", "transform_to_after_loop")
+    handled = set()
+    for x in walk_no_nested(tl.node):
+        if isinstance(x, ast.Call) and call_name(x) == "isinstance" and len(x.args) == 2:
+            for y in ast.walk(x.args[1]):
+                if isinstance(y, ast.Name) and y.id in ("dict", "list", "tuple", "set"):
+                    handled.add(y.id)
+    for f in repo.functions:
+        if not f.relpath.startswith("cli/"):
+            continue
+        fd = None
+        for cl in [x for x in walk_no_nested(f.node) if isinstance(x, ast.Call) and call_name(x) == "transform_to_after_loop" and x.args]:
+            if fd is None:
+                fd = Defs(f.node, f.params()[0] if f.params() and f.cls is not None else None)
+            a0 = cl.args[0]
+            vals = fd.defs.get(a0.id, []) if isinstance(a0, ast.Name) and a0.id not in fd.params else [a0]
+            kinds = set()
+            for v in vals:
+                if isinstance(v, (ast.List, ast.ListComp)) or (isinstance(v, ast.Call) and call_name(v) in ("list", "sorted")):
+                    kinds.add("list")
+                elif isinstance(v, (ast.Dict, ast.DictComp)) or (isinstance(v, ast.Call) and call_name(v) == "dict"):
+                    kinds.add("dict")
+                elif isinstance(v, (ast.Tuple,)):
+                    kinds.add("tuple")
+                elif isinstance(v, (ast.Set, ast.SetComp)):
+                    kinds.add("set")
+            missing = sorted(k for k in kinds if k not in handled)
+            keyk = f"{f.relpath}::{f.qualname}::limit-argument-kind"
+            if missing:
+                obs.append(Ob("E-after-loop", keyk, f.relpath, cl.lineno, f.qualname, False,
+                              f"`{src(cl)[:60]}` passes a {missing[0]} to transform_to_after_loop, which maps over {sorted(handled) or ['nothing']} only and takes the limit of anything else "
+                              "as ONE expression: the goal ends in an AttributeError instead of a result whenever --after_loop is given"))
+            elif kinds:
+                obs.append(Ob("E-after-loop", keyk, f.relpath, cl.lineno, f.qualname, True, f"the {sorted(kinds)[0]} passed to transform_to_after_loop is one of the containers it maps over"))
     g = repo.function("cli/common.py", "get_all_cumulants_after_loop")
     names = {call_name(c) for c in walk_no_nested(g.node) if isinstance(c, ast.Call)}
     ok = "get_all_moments_given_termination" in names and "transform_to_after_loop" in names
@@ -1277,9 +1313,21 @@ def rule_parser_helpers(repo: Repo) -> List[Ob]:
             def kinds(lst):
                 apps = [x for x in walk_no_nested(sim.node) if isinstance(x, ast.Call) and call_name(x) in ("append", "insert") and isinstance(x.func.value, ast.Name) and x.func.value.id == lst]
                 out = []
+                inners = []
                 for ap in apps:
                     a0 = ap.args[-1]
-                    inner = a0.args[0] if isinstance(a0, ast.Call) and a0.args else a0
+                    inners.append(a0.args[0] if isinstance(a0, ast.Call) and a0.args else a0)
+                # lst += translated if isinstance(translated, list) else [translated]   /   lst.extend(...)  with translated = self.assign([...])
+                from ..shape import inline_locals as _il
+                grown = [x.value for x in walk_no_nested(sim.node) if isinstance(x, ast.AugAssign) and isinstance(x.op, ast.Add) and isinstance(x.target, ast.Name) and x.target.id == lst]
+                grown += [x.args[0] for x in walk_no_nested(sim.node) if isinstance(x, ast.Call) and call_name(x) == "extend" and isinstance(x.func.value, ast.Name) and x.func.value.id == lst and x.args]
+                for g_ in grown:
+                    seen_src = set()
+                    for c_ in ast.walk(_il(g_, d, keep={tmp})):
+                        if isinstance(c_, ast.Call) and c_.args and isinstance(c_.args[0], ast.List) and len(c_.args[0].elts) == 3 and src(c_.args[0]) not in seen_src:
+                            seen_src.add(src(c_.args[0]))
+                            inners.append(c_.args[0])
+                for inner in inners:
                     k = None
                     if isinstance(inner, ast.List) and len(inner.elts) == 3:
                         first, last = src(inner.elts[0]), src(inner.elts[2])
@@ -1302,6 +1350,36 @@ def rule_parser_helpers(repo: Repo) -> List[Ob]:
         obs.append(inconclusive("E-simult", key_s, rp, sim.node.lineno if sim else 0, "StructureTransformer._assign_simult", msg))
     else:
         obs.append(Ob("E-simult", key_s, rp, sim.node.lineno, sim.qualname, verdict, msg))
+    # --- a translation that can yield several statements is spliced into a statement sequence, never appended as one element
+    def may_return_list(m_, depth=0) -> bool:
+        if m_ is None or depth > 3:
+            return False
+        for r in walk_no_nested(m_.node):
+            if isinstance(r, ast.Return) and r.value is not None:
+                v = r.value
+                if isinstance(v, (ast.List, ast.ListComp)) or (isinstance(v, ast.BinOp) and isinstance(v.op, ast.Add) and all(isinstance(x, ast.Name) for x in (v.left, v.right))):
+                    return True
+                if isinstance(v, ast.Call) and isinstance(v.func, ast.Attribute) and isinstance(v.func.value, ast.Name) and v.func.value.id == "self" and v.func.attr != m_.name:
+                    if may_return_list(st.find_method(v.func.attr), depth + 1):
+                        return True
+        return False
+    listy = {m_.name for m_ in st.all_methods if may_return_list(m_)}
+    for m_ in st.all_methods:
+        for cl in walk_no_nested(m_.node):
+            if isinstance(cl, ast.Call) and call_name(cl) == "append" and cl.args and isinstance(cl.args[0], ast.Call) and isinstance(cl.args[0].func, ast.Attribute) \
+                    and isinstance(cl.args[0].func.value, ast.Name) and cl.args[0].func.value.id == "self" and cl.args[0].func.attr in listy:
+                inner = cl.args[0].func.attr
+                # what is translated: a fresh name / a literal is one plain assignment whatever the options say
+                a_in = cl.args[0].args[0] if cl.args[0].args else None
+                last = a_in.elts[-1] if isinstance(a_in, (ast.List, ast.Tuple)) and a_in.elts else a_in
+                mdefs = Defs(m_.node, m_.params()[0] if m_.params() else None)
+                if isinstance(last, ast.Constant) or (isinstance(last, ast.Name) and last.id in mdefs.defs and
+                                                     all(isinstance(v, ast.Call) and call_name(v) in ("get_unique_var", "get_unique_name", "str") for v in mdefs.defs[last.id])):
+                    continue
+                single = [r for r in walk_no_nested(st.find_method(inner).node) if isinstance(r, ast.Return) and r.value is not None and not isinstance(r.value, (ast.List, ast.ListComp))]
+                obs.append(Ob("E-simult", f"{rp}::{m_.qualname}::splice::{inner}", rp, cl.lineno, m_.qualname, False,
+                              f"`{src(cl)[:70]}` appends the result of `{inner}` as ONE statement, but `{inner}` can return a list of statements (a probabilistic choice under "
+                              "--transform_categoricals): the nested list is not a statement, the program ends in an AttributeError instead of being analysed"))
     # --- categorical expansion keeps index, value and probability aligned
     tc = st.methods.get("_transform_categorical")
     key_c = f"{rp}::StructureTransformer._transform_categorical::aligned"
